@@ -3648,4 +3648,6 @@ func runC11(c *Ctx) {
 	for k := 0; k < c.N; k++ {
 		c11History(c, k%2 == 0)
 	}
+	// multi-port family (c11_ports.go): a consumer re-wired between two ports of one node
+	c11PortsHistories(c)
 }
